@@ -356,6 +356,34 @@ Proof.
   exfalso. destruct C as [C|[C|[C|[C|C]]]]; lia.
 Qed.
 
+(** the complete case split of [s_reveal]: which class an input falls in, with the exact error
+    (and the exact octets handed to the per-type format) in each class; the four guards are
+    exhaustive and mutually exclusive, so this characterises [s_reveal] entirely *)
+Theorem reveal_cases t v secret rv :
+  let p := s_decrypt H t secret rv v in
+  let L := fld 2 0 p in
+  (len v = 0 -> s_reveal H t v secret rv = Err EmptyHiddenAVP) /\
+  (len v <> 0 -> len v mod 16 <> 0 -> s_reveal H t v secret rv = Err MisalignedHiddenAVP) /\
+  (len v <> 0 -> len v mod 16 = 0 -> (L < 6 \/ 1023 < L \/ len p - 2 < L - 6) ->
+     s_reveal H t v secret rv = Err (InvalidOriginalAVPLength L)) /\
+  (len v <> 0 -> len v mod 16 = 0 -> 6 <= L -> L <= 1023 -> L - 6 <= len p - 2 ->
+     s_reveal H t v secret rv = s_payload t (octs (L - 6) 2 p)).
+Proof.
+  cbv zeta. unfold s_reveal.
+  destruct (len v =? 0) eqn:E0; [apply N.eqb_eq in E0|apply N.eqb_neq in E0].
+  { repeat split; intros; try reflexivity; lia. }
+  destruct (negb (len v mod 16 =? 0)) eqn:EM;
+    [apply negb_true_iff, N.eqb_neq in EM|apply negb_false_iff, N.eqb_eq in EM].
+  { repeat split; intros; try reflexivity; lia. }
+  cbv zeta. set (L := fld 2 0 (s_decrypt H t secret rv v)) in *.
+  destruct ((L <? 6) || (1023 <? L)) eqn:G.
+  { apply orb_true_iff in G. rewrite !N.ltb_lt in G. repeat split; intros; try reflexivity; lia. }
+  apply orb_false_iff in G. destruct G as [G1 G2]. apply N.ltb_ge in G1, G2.
+  destruct (len (s_decrypt H t secret rv v) - 2 <? L - 6) eqn:G3;
+    [apply N.ltb_lt in G3|apply N.ltb_ge in G3];
+    repeat split; intros; try reflexivity; lia.
+Qed.
+
 (** * C11: decrypting what was encrypted *)
 Lemma dec_enc_chain secret n : forall prev plain, len plain = 16 * N.of_nat n ->
   dec_chain H n secret prev (enc_chain H n secret prev plain) = plain.
